@@ -352,9 +352,11 @@ Section Proofs.
       eapply do_run_inv; eauto.
     - destruct (do_run s i dur true) as [s2 ob] eqn:E. intros X; inversion X; subst.
       eapply do_run_inv; eauto.
-    - destruct (compile_code s i) as [[s1 cf] cg] eqn:E. intros X; inversion X; subst.
-      apply inv_ok_parts in OKs as (A & _ & _). split; [|reflexivity].
-      eapply compile_code_inv; eauto.
+    - destruct (i_out i).
+      + intros X; inversion X; subst. split; [exact I|reflexivity].
+      + destruct (compile_code s i) as [[s1 cf] cg] eqn:E. intros X; inversion X; subst.
+        apply inv_ok_parts in OKs as (A & _ & _). split; [|reflexivity].
+        eapply compile_code_inv; eauto.
   Qed.
 
   Lemma exec_fresh_from s h :
@@ -402,6 +404,15 @@ Section Proofs.
     all_fresh (exec (init tps) h) = true.
   Proof. intros; apply fresh_under_hyps, hyps_trivial; assumption. Qed.
 End Proofs.
+
+(* ---------- [expected] is what the machine itself does with --no-cache in a fresh directory ---------- *)
+Definition with_nocache (i : inv) : inv := mkInv (i_slot i) (i_out i) (i_code i) (i_cmd i) (i_cc i) (i_nohead i) true.
+Theorem expected_is_nocache_run H ccinfo_of cc_ok pol tps i dur :
+  o_out (snd (do_run H ccinfo_of cc_ok pol tps (init tps) (with_nocache i) dur false)) = expected cc_ok i.
+Proof.
+  unfold do_run, compile_code, compile_binary, reuse_ok, cache_allowed, expected, cur, init, with_nocache; simpl.
+  destruct (cc_ok (i_code i, i_cmd i, i_cc i)); reflexivity.
+Qed.
 
 (* ---------- the full-strength statement and its refutations ---------- *)
 
